@@ -26,3 +26,23 @@ func containsPEM(text, want string) bool {
 	}
 	return strings.Contains(text, base64.StdEncoding.EncodeToString([]byte(want)))
 }
+
+// parallel runs f(0..n-1) on up to 16 goroutines.
+func parallel(n int, f func(i int)) {
+	sem := make(chan struct{}, 16)
+	done := make(chan struct{})
+	go func() {
+		for i := 0; i < n; i++ {
+			sem <- struct{}{}
+			go func(i int) {
+				defer func() { <-sem }()
+				f(i)
+			}(i)
+		}
+		for k := 0; k < cap(sem); k++ {
+			sem <- struct{}{}
+		}
+		close(done)
+	}()
+	<-done
+}
